@@ -70,7 +70,8 @@ def apply_transfer_functions(obj, dx, tfs, fx=None, fy=None, ft=None, fr=None, s
             fy, fx = [forward_ft_unit(dx, n, shift=shift) for n in obj.shape]
 
         fx, fy = optimize_xy_separable(fx, fy)
-        fr, ft = cart_to_polar(fx, fy)
+        # fx is a row and fy a column by now; broadcasting makes the (M, N) polar grids
+        fr, ft = cart_to_polar(fx, fy, vec_to_grid=False)
 
     o = obj
     if shift:
